@@ -13,7 +13,7 @@ META = {
             "whole bind case space, a filter/attribute-request pool on every connection kind, and seeded random histories, each "
             "search compared with the native search_ext of the same effective identity and with a fresh anonymous bind, with a "
             "digest of the full database before and after every operation.",
-    "note": "exhaustive only within the model bound (depth 2 quick / 3 thorough, abstract 4-entry directory); the real code is "
+    "note": "exhaustive only within the model bound (operation sequences of depth 2 quick / up to 4 thorough, abstract 4-entry directory); the real code is "
             "sampled (fixed population, pools, seeded histories). Trusted: TLC, the harness projection (attribute NAMES are "
             "compared, not values), kanidmd_core's session handling transcribed in the driver, the wall clock read by ldap.rs "
             "(no expiry is configured near now). Protocol write operations are shown not to convert to ServerOps at all.",
@@ -78,7 +78,8 @@ def run(tier, replay):
     lib.build("oauth")
     quick = tier == "quick"
     # (1) the model: L2 connection machine against the L1 clauses
-    cfgs = ["KLdapMCReq"] if quick else ["KLdapMCReq", "KLdapMC"]
+    # KLdapMCReq: depth 2, full attribute-request pool; KLdapMC / KLdapMC4: depth 3 / 4, reduced request pool
+    cfgs = ["KLdapMCReq"] if quick else ["KLdapMCReq", "KLdapMC", "KLdapMC4"]
     states = trans = 0
     mc_detail = {}
     model_cases = None
